@@ -523,6 +523,8 @@ func (db *SpecDB) loadFile(path, pkgShort string, slashAt bool) error {
 		case "callsite":
 			// callsite <calleeKey> [label] {props} expr
 			ck, r2 := splitWord(rest)
+			ck = strings.Replace(ck, "callback:", "callback ", 1)
+			ck = strings.Replace(ck, "iface:", "iface ", 1)
 			cl, err := parseClause(r2, pos)
 			if err != nil {
 				return err
